@@ -1,5 +1,6 @@
 import SigHook.Props.Packed
 import SigHook.Model.ChannelGen
+import SigHook.Props.C07
 /-!
 # C06 — Channel is a 5-slot FIFO: nothing invented, duplicated, reordered or lost early
 
@@ -90,5 +91,58 @@ example : ((runSched genOrders (Sys.init demo)
       ((List.replicate 26 (0, ({} : Choice))) ++ (List.replicate 26 (1, ({} : Choice))))).2.filterMap (·.ret)) =
     [none, none, none, none, none, none, some 1, some 2, some 3, some 4, some 5, none] := by
   decide +kernel
+
+
+/-! ## The queues in every reachable state -/
+
+/-- **C06.queues_wellformed** — in every reachable state both queue values, and every value in
+their histories (anything a relaxed load can still return), are well-formed queues of distinct
+slot indices; payload cells of the indices in the `full` queue are occupied. -/
+theorem C06_queues_wellformed {scripts : List (List Cmd)} {s : Sys} (hr : Reachable genOrders scripts s) :
+    (∀ q, ∀ m ∈ s.hist q, LQ m ∈ validLists ∧ m.val = pack (LQ m)) ∧
+    (∀ idx, (LQ (lastMsg s.full)).contains idx = true → (s.cells.getD (idx - 1) none).isSome = true) :=
+  let hI := inv_reachable C07_orderings_side_condition.1 C07_orderings_side_condition.2 hr
+  ⟨hI.valid, hI.fullCells⟩
+
+/-- **C06.fifo_transitions** — every successful compare-exchange on a queue in a reachable state
+either removes the head of the (well-formed) latest value or appends one index, absent so far, at
+its tail: indices - hence payloads - leave each queue in the order they entered, none is
+duplicated and none disappears. -/
+theorem C06_fifo_transitions {scripts : List (List Cmd)} {s s' : Sys} {t : Nat} {c : Choice} {out : Out}
+    {q : Loc} {cur new seen : Q}
+    (hr : Reachable genOrders scripts s) (hs : step genOrders s t c = some (s', out))
+    (hobs : out.obs = .cas q cur new true seen) :
+    ∃ l ∈ validLists, (lastMsg (s.hist q)).val = pack l ∧ cur = pack l ∧
+      ((l ≠ [] ∧ new = pack l.tail) ∨ (∃ idx ∈ idxs, ¬ l.contains idx ∧ new = pack (l ++ [idx]))) := by
+  have hI := inv_reachable C07_orderings_side_condition.1 C07_orderings_side_condition.2 hr
+  cases hth : s.threads[t]? with
+  | none => unfold step at hs; simp [hth] at hs
+  | some th =>
+    have h := cstep_of hth hs
+    have hP := hI.pcs t th hth
+    cases h with
+    | deqOk q' tag cur' hpc hcs =>
+      simp only at hobs; injection hobs with e1 e2 e3 e4 e5; subst e1; subst e2; subst e3
+      simp only [PcOk, hpc] at hP
+      have hval := canSucceed_val hcs
+      have hv := hI.valid q' _ (lastMsg_mem (hI.ne q'))
+      refine ⟨LQ (lastMsg (s.hist q')), hv.1, hv.2, by rw [← hval]; exact hv.2, Or.inl ?_⟩
+      have hne : LQ (lastMsg (s.hist q')) ≠ [] := by
+        intro e
+        have := tbl_zero _ hv.1
+        rw [← hv.2, hval, e] at this
+        simp at this; exact hP.1 this
+      refine ⟨hne, ?_⟩
+      have := (tbl_head _ hv.1 hne).2.1
+      rw [← hv.2, hval] at this; exact this
+    | enqOk q' idx ret cur' new' hpc he hcs =>
+      simp only at hobs; injection hobs with e1 e2 e3 e4 e5; subst e1; subst e2; subst e3
+      simp only [PcOk, hpc] at hP
+      obtain ⟨hO, _, l, hl, hcur, hni⟩ := hP
+      have hval := canSucceed_val hcs
+      refine ⟨l, hl, by rw [hval]; exact hcur, hcur, Or.inr ⟨idx, hO.1, hni, ?_⟩⟩
+      have := (tbl_enq l hl idx hO.1 hni).1
+      rw [hcur, this] at he; injection he with he; exact he.symm
+    | _ => simp at hobs
 
 end SigHook.Channel
